@@ -3,7 +3,7 @@ From Coq Require Import List String.
 From VQ.Gen Require Import pat_lfq_forward.
 Import ListNotations.
 Open Scope string_scope.
-Lemma pin_pat_lfq_forward : pat_lfq_forward =
+Definition pinned_pat_lfq_forward : list (string * string) :=
   [("rearrange", "b d ... -> b ... d");
    ("pack_one", "b * d");
    ("rearrange", "b n (c d) -> b n c d");
@@ -17,4 +17,5 @@ Lemma pin_pat_lfq_forward : pat_lfq_forward =
    ("rearrange", "b ... d -> b d ...");
    ("unpack_one", "b * c");
    ("rearrange", "... 1 -> ...")].
+Lemma pin_pat_lfq_forward : pat_lfq_forward = pinned_pat_lfq_forward.
 Proof. reflexivity. Qed.
